@@ -363,8 +363,18 @@ fn run(ctx: &mut Ctx) -> Verdict {
             // ambiguity guard: the bytes must not name another outstanding request
             if target == Target::Reply {
                 let text = String::from_utf8_lossy(&mutated);
+                // the value of the first message-id attribute, read as a number the way integer parsers
+                // commonly do ("+3", "03" and " 3" all name request 3)
+                let named: Option<u64> = text.split("message-id=").nth(1).and_then(|r| {
+                    let q = r.chars().next()?;
+                    if q != '"' && q != '\'' {
+                        return None;
+                    }
+                    let v: String = r[1..].chars().take_while(|c| *c != q).collect();
+                    v.trim().parse::<u64>().ok()
+                });
                 for w in 0..n {
-                    if w != x && (text.contains(&format!("message-id=\"{}\"", w + 1)) || text.contains(&format!("message-id='{}'", w + 1))) {
+                    if w != x && (text.contains(&format!("message-id=\"{}\"", w + 1)) || text.contains(&format!("message-id='{}'", w + 1)) || named == Some(w as u64 + 1)) {
                         ctx.count("skipped.names_another_request");
                         return Verdict::Pass;
                     }
@@ -530,7 +540,7 @@ pub static C14: PropSpec = PropSpec {
         ("transport", "stub: in-memory (delivers delimiter-terminated messages, like the real ones); one run in 150: the real TLS / SSH / local transports against the scripted R-sim peer"),
     ],
     assumptions: &[
-        "a mutation whose bytes name another outstanding request's message-id is skipped (its effect on that request would be legitimate)",
+        "a mutation whose bytes name another outstanding request's message-id - literally or in another spelling of the same number (\"+3\", \"03\") - is skipped (its effect on that request would be legitimate)",
         "when the damaged reply no longer names its owner (start tag or message-id destroyed, not UTF-8): completion of the owner is not demanded, and at most one other caller (the one that happened to read the unattributable message) may see an error. For a reply that is merely cut short behind an intact <rpc-reply message-id=x> start tag in the base namespace the strict form applies: every other request gets its own reply and the owner gets an answer",
         "a poll that never returns is detected by the worker watchdog (20 s of real time) and reported as class 'spin'",
     ],
